@@ -56,7 +56,7 @@ Print Assumptions C06_reads_are_pure.
 Theorem C06_getfield_value : forall rx am, engine_ok rx am ->
   forall s x s' w l fl v, Inv rx s -> view rx am s = Ok (l, fl, v) ->
   exec_op rx am s (GetField rx (IConst x)) = Ok (s', w) ->
-  w = OVal (if f2i64 x =? 0 then l else field_at fl (f2i64 x)).
+  w = OVal (if float_to_int x =? 0 then l else field_at fl (float_to_int x)).
 Proof. exact getfield_returns_view. Qed.
 Print Assumptions C06_getfield_value.
 
@@ -136,18 +136,22 @@ Theorem C06_setfield_too_large : forall rx am s i t,
 Proof. exact set_field_too_large. Qed.
 Print Assumptions C06_setfield_too_large.
 
-(* the index reaches set_field as int(x): a program's $(x) = t with trunc(x) > maxFieldIndex is
-   rejected as long as trunc(x) fits an int64 ... *)
-Theorem C06_setfield_huge_partial : forall rx am s m e t,
-  ftrunc m e > maxFieldIndex -> in_i64 (ftrunc m e) = true ->
-  exec_op rx am s (SetField rx (IConst (FFin m e)) t) = Err (msg_field_too_large ++ dec_of_Z (ftrunc m e)).
-Proof. exact setfield_huge_partial. Qed.
-Print Assumptions C06_setfield_huge_partial.
+(* the index reaches set_field as floatToInt(x) (saturating): a program's $(x) = t with
+   trunc(x) > maxFieldIndex is the "too large" error however large x is (2^63, 1e30, ...) *)
+Theorem C06_setfield_huge : forall rx am s m e t,
+  ftrunc m e > maxFieldIndex ->
+  exec_op rx am s (SetField rx (IConst (FFin m e)) t) =
+  Err (msg_field_too_large ++ dec_of_Z (float_to_int (FFin m e))).
+Proof. exact setfield_huge. Qed.
+Print Assumptions C06_setfield_huge.
 
-(* ... and silently ignored beyond (F-C06-4): $(2^100) = "x" returns no error *)
-Theorem C06_setfield_huge_refuted : ~ setfield_huge_full_statement.
-Proof. exact setfield_huge_refuted. Qed.
-Print Assumptions C06_setfield_huge_refuted.
+(* ... and reading $(x) beyond the last field, 2^63 and more included, gives "" *)
+Theorem C06_getfield_huge : forall rx am, engine_ok rx am ->
+  forall s m e s' w l fl v, Inv rx s -> view rx am s = Ok (l, fl, v) -> zlen fl < maxint ->
+  zlen fl < ftrunc m e ->
+  exec_op rx am s (GetField rx (IConst (FFin m e))) = Ok (s', w) -> w = OVal [].
+Proof. exact getfield_huge. Qed.
+Print Assumptions C06_getfield_huge.
 
 (* ---------------- NF = v ---------------- *)
 
@@ -201,22 +205,18 @@ Theorem C06_reachable_getfield : forall rx am, engine_ok rx am ->
   forall ops s, run rx am ops (init rx) = Ok s ->
   forall x s' w l fl v, view rx am s = Ok (l, fl, v) ->
   exec_op rx am s (GetField rx (IConst x)) = Ok (s', w) ->
-  w = OVal (if f2i64 x =? 0 then l else field_at fl (f2i64 x)) /\ view rx am s' = view rx am s.
+  w = OVal (if float_to_int x =? 0 then l else field_at fl (float_to_int x)) /\ view rx am s' = view rx am s.
 Proof. exact reachable_getfield. Qed.
 Print Assumptions C06_reachable_getfield.
 
 (* ---------------- getline $i ---------------- *)
 
-(* full statement (getline $i is the assignment $i = line): FALSE on the pinned tree (F-C06-2) *)
-Theorem C06_getline_field_refuted : ~ getline_field_full_statement.
-Proof. exact getline_field_refuted. Qed.
-Print Assumptions C06_getline_field_refuted.
-
-Theorem C06_getline_field_partial : forall rx am s i t s0,
-  eval_idx rx am s i = Ok (s0, 0) ->
+(* getline $i, the record read being t, is exactly the assignment $i = t (index evaluated
+   before the read, converted once) *)
+Theorem C06_getline_field_is_setfield : forall rx am s i t,
   exec_op rx am s (GetlineField rx i t) = exec_op rx am s (SetField rx i t).
-Proof. exact getline_field_partial. Qed.
-Print Assumptions C06_getline_field_partial.
+Proof. exact getline_field_is_setfield. Qed.
+Print Assumptions C06_getline_field_is_setfield.
 
 (* ---------------- the FS rules ---------------- *)
 
@@ -303,16 +303,21 @@ Example C06_ex_lazy_fs :
   = Ok ([97; 44; 98; 32; 99], [[97]; [98; 32; 99]], count_value 2).
 Proof. vm_compute. reflexivity. Qed.
 
+Example C06_ex_huge_index :                  (* $(2^100) = "x" is the "too large" error; $(2^100) reads "" *)
+  (exists msg, xexec (set_line re xinit b_abc false) (SetField re (IConst (FFin 1 100)) [120]) = Err msg) /\
+  (do (_, w) <- xexec (set_line re xinit b_abc false) (GetField re (IConst (FFin 1 100))); Ok w) = Ok (OVal []).
+Proof. split; [eexists|]; vm_compute; reflexivity. Qed.
+
 (* the witnesses of the findings, on the executable model *)
 Example C06_ex_nf_2_7 :                      (* $0 = "a b c"; NF = 2.7  ->  NF reads 2.7, 2 fields *)
   (do s <- run re Regex.all_matches [ReadRecord re b_abc; SetNF re v_2_7] xinit; view re Regex.all_matches s)
   = Ok ([97; 32; 98], [[97]; [98]], v_2_7).
 Proof. vm_compute. reflexivity. Qed.
 
-Example C06_ex_getline_field :               (* getline $2 with line "X": $0 = "X" *)
+Example C06_ex_getline_field :               (* getline $2 with line "X": $0 = "a X c" *)
   (do (s, _) <- xexec (set_line re xinit b_abc false) (GetlineField re (IConst (FFin 2 0)) [88]);
    view re Regex.all_matches s)
-  = Ok ([88], [[88]], count_value 1).
+  = Ok ([97; 32; 88; 32; 99], [[97]; [88]; [99]], count_value 3).
 Proof. vm_compute. reflexivity. Qed.
 
 Example C06_ex_nbsp :                        (* "a<NBSP>b c" has 3 fields *)
